@@ -432,8 +432,9 @@ def probe_drops_untimed(F):
 def registry_text(F):
     M = F['M']
     rows = []
-    for t in M.message_type_to_class.keys():
-        rows.append('%d:1:%d:%d' % (int(t), int(t in M.messages_with_p1_time), int(t in M.messages_with_system_time)))
+    for t, cls in M.message_type_to_class.items():
+        rows.append('%d:1:%d:%d:%d:%d' % (int(t), int(t in M.messages_with_p1_time), int(t in M.messages_with_system_time),
+                                          int('p1_time' in cls().__dict__), int('p1_time' in cls.to_numpy([]))))
     if M.messages_with_p1_time & M.messages_with_system_time:
         raise fv.InfraError('registry: a message type has both P1 and system time (hypothesis Reg.Disjoint of the theorems)')
     return ','.join(rows)
